@@ -32,6 +32,7 @@ LEAN_SOURCES = ["LenaModel/Model/C11.lean", "LenaModel/Model/C11Conc.lean", "Len
                 "LenaModel/Props/C11.lean"]
 DRIVER = "drivers/C11.lean"
 THEOREMS = [
+    "Lena.C11.split_into_bins_spec",
     "Lena.C11.cell_is_subflow",
     "Lena.C11.cells_share_nothing",
     "Lena.C11.fill_one",
@@ -1140,7 +1141,7 @@ def _systematic(tier):
 def gen_cases(ctx):
     rng = ctx.rng
     cases = _systematic(ctx.tier)
-    n = 1500 if ctx.tier == "quick" else 40000
+    n = 4000 if ctx.tier == "quick" else 60000
     for _ in range(n):
         cases.append(_gen_random(rng, ctx.tier == "thorough"))
     ctx.exhaustive = False
@@ -1180,7 +1181,8 @@ def classify(case, res):
 
 
 def signature(case, failure):
-    return "C11:" + failure.split(":")[0][:60]
+    import re
+    return "C11:" + re.sub(r"[^A-Za-z ]+", "", failure.split(":")[0])[:60].strip()
 
 
 def shrink(case):
